@@ -57,14 +57,23 @@ pub struct PoolOutcome {
     pub aux_counts: Vec<usize>,
 }
 
-/// In-run audit of C06's clauses 3 and 6, evaluated *before* the offending
-/// operation is executed so that a use-after-free in the code under test is
-/// reported instead of performed:
+/// In-run monitor of the pool scenarios, stated in terms of the property and
+/// not of the pool's mechanism (which atomic is "the countdown", how tasks
+/// reach the workers, how the caller is woken):
 ///
-/// * when `broadcast` returns, every task call must have returned or panicked;
-/// * once the countdown of a broadcast has reached zero, or the caller is back
-///   from `broadcast`, a worker that served it must not operate on the
-///   broadcast's shared state any more (until it has received its next task).
+/// * when `broadcast` comes back — by returning or by unwinding — every task
+///   call must have returned or panicked (`returned_early`,
+///   `caller_panicked_in_broadcast`);
+/// * once the caller is back from a broadcast, its stack frames below the
+///   call site are gone; a thread that existed at that moment and is about to
+///   operate (atomics, cloning a thread handle) on memory inside that part of
+///   the caller's stack, while no newer broadcast from that stack is in
+///   progress, is using a stale pointer into the dead frame
+///   (`touch_after_release`). The check runs *before* the real operation, so
+///   the use-after-free is reported, not executed. "Once the caller *may* have
+///   resumed" is covered by the schedule search: if a worker can touch the
+///   shared state after the release, some schedule lets the caller come back
+///   first.
 #[derive(Default)]
 pub struct FrameLiveness {
     st: Mutex<FrameSt>,
@@ -79,14 +88,15 @@ struct FrameSt {
     ended: u32,
     /// Per broadcast: has the caller come back from it?
     returned: Vec<bool>,
-    /// Per broadcast: seq at which its countdown reached zero.
-    zero: Vec<Option<u32>>,
-    /// Per broadcast: address of the first atomic its participants operated
-    /// on (its countdown): the shared state lives around it.
-    shared_addr: Vec<Option<usize>>,
-    /// Per worker: the broadcast whose task it took and from which it has
-    /// not yet come back for the next one.
-    serving: [Option<u32>; dsim::MAX_THREADS],
+    /// Per broadcast: the part of the caller's stack that holds the frames of
+    /// the `broadcast` call (set by the harness at the call site).
+    region: Vec<Option<(usize, usize)>>,
+    /// Per broadcast: its caller, and the threads that existed when the
+    /// caller came back (bit per sim thread).
+    owner: Vec<usize>,
+    alive_at_return: Vec<u32>,
+    /// Threads started so far.
+    started: u32,
 }
 
 impl FrameSt {
@@ -94,9 +104,26 @@ impl FrameSt {
         let len = j as usize + 1;
         if self.returned.len() < len {
             self.returned.resize(len, false);
-            self.zero.resize(len, None);
-            self.shared_addr.resize(len, None);
+            self.region.resize(len, None);
+            self.owner.resize(len, 0);
+            self.alive_at_return.resize(len, 0);
         }
+    }
+    fn mark_returned(&mut self, j: u32) {
+        self.grow(j);
+        self.returned[j as usize] = true;
+        self.alive_at_return[j as usize] = self.started;
+    }
+}
+
+impl FrameLiveness {
+    /// Called by the harness right before it calls into the pool: `top` is
+    /// the address of a local of the calling function; the frames of the
+    /// `broadcast` call lie just below it.
+    pub fn set_frame(&self, j: u32, top: usize) {
+        let mut st = self.st.lock().unwrap();
+        st.grow(j);
+        st.region[j as usize] = Some((top.saturating_sub(48 << 10), top.saturating_add(256)));
     }
 }
 
@@ -104,25 +131,24 @@ impl dsim::Monitor for FrameLiveness {
     fn on_event(&self, e: &Event) -> Option<String> {
         let mut st = self.st.lock().unwrap();
         let t = e.tid as usize;
-        // The calling thread is unwinding out of `broadcast` (no call of the
-        // harness task does that on its own: it is the pool's code that
-        // panicked, e.g. on a failed send). Its frame — and with it the
-        // shared state — is about to go while workers may still be serving:
-        // stop at its first operation during unwinding, before anything else
-        // runs.
+        st.started |= 1u32 << (t as u32 & 31);
+        if let Ev::Spawn { child } = e.kind {
+            st.started |= 1u32 << (child as u32 & 31);
+        }
+        // The calling thread is unwinding out of `broadcast` (the harness
+        // task never lets a panic of its own escape `broadcast` except
+        // through the pool's own handling of the caller's payload): a way of
+        // coming back. Judged at its first operation during unwinding, before
+        // anything else runs.
         if (e.unwinding || matches!(e.kind, Ev::ThreadPanic))
             && t == st.caller
             && !matches!(e.kind, Ev::User(_))
             && st.returned.get(st.cur as usize) == Some(&false)
             && !st.returned.is_empty()
         {
-            // Unwinding out of `broadcast` once every call has finished and
-            // the countdown has reached zero is a legitimate way back (the
-            // caller's panic payload had a panicking destructor): from here
-            // on the broadcast counts as returned.
-            let cur = st.cur as usize;
-            if st.ended == st.n + 1 && (st.n == 0 || st.zero[cur].is_some()) {
-                st.returned[cur] = true;
+            let cur = st.cur;
+            if st.ended == st.n + 1 {
+                st.mark_returned(cur);
                 return None;
             }
             return Some(format!(
@@ -138,35 +164,18 @@ impl dsim::Monitor for FrameLiveness {
                 st.grow(j);
                 st.cur = j;
                 st.caller = t;
+                st.owner[j as usize] = t;
                 st.n = n;
                 st.ended = 0;
             }
-            Ev::User(UserEv::TaskBegin { j, .. }) if t != st.caller => st.serving[t] = Some(j),
             Ev::User(UserEv::TaskEnd { j, .. } | UserEv::TaskPanic { j, .. }) if j == st.cur => {
                 st.ended += 1
             }
-            Ev::Recv { .. } | Ev::RecvErr { .. } | Ev::Exit => st.serving[t] = None,
-            Ev::Atomic { op, new, addr, .. } => {
-                // Attribute the operation to the broadcast its thread works for.
-                let j = if t == st.caller { Some(st.cur) } else { st.serving[t] };
-                if let Some(j) = j {
-                    st.grow(j);
-                    let j = j as usize;
-                    if !st.returned[j] {
-                        if st.shared_addr[j].is_none() {
-                            st.shared_addr[j] = Some(addr);
-                        }
-                        if op == AtomOp::Rmw && new == 0 && t != st.caller {
-                            st.zero[j] = Some(e.seq);
-                        }
-                    }
-                }
-            }
             Ev::User(UserEv::BroadcastReturn { j }) => {
-                st.grow(j);
-                st.returned[j as usize] = true;
+                let already = st.returned.get(j as usize) == Some(&true);
+                st.mark_returned(j);
                 // Nothing else has run since the caller came back.
-                if j == st.cur && st.ended < st.n + 1 {
+                if !already && j == st.cur && st.ended < st.n + 1 {
                     return Some(format!(
                         "[returned_early] broadcast {j} (n={}) returned although {} of its {} task calls had neither returned nor panicked",
                         st.n,
@@ -182,30 +191,39 @@ impl dsim::Monitor for FrameLiveness {
 
     fn pre_touch(&self, tid: usize, addr: usize) -> Option<String> {
         let st = self.st.lock().unwrap();
-        let j = st.serving[tid]? as usize;
-        let returned = *st.returned.get(j)?;
-        let zero = *st.zero.get(j)?;
-        if !(returned || zero.is_some()) {
+        if st.returned.is_empty() {
             return None;
         }
-        // The shared state of broadcast j lives around its countdown; later
-        // broadcasts usually reuse the same frame.
-        let near = |a: Option<usize>| a.map_or(false, |a| addr.abs_diff(a) <= 256);
-        // (If nobody has operated on that broadcast's countdown yet — the
-        // caller came back without ever looking at it — its address is
-        // unknown; the only thing a worker still serving it can be about to
-        // operate on is that shared state.)
-        let unknown = st.shared_addr[j].is_none() && returned;
-        if !(unknown || near(st.shared_addr[j]) || near(st.shared_addr.get(st.cur as usize).copied().flatten())) {
-            return None;
-        }
-        Some(format!(
-            "[touch_after_release] broadcast {j}: worker thread {tid} is about to operate on the broadcast's shared state although {} (the caller's frame may be gone)",
-            match zero {
-                Some(z) if !returned => format!("its countdown reached zero at seq {z}"),
-                _ => "the caller is already back from that broadcast".to_string(),
+        // While a broadcast is in progress, operations on its caller's stack
+        // may belong to it.
+        let cur = st.cur as usize;
+        let open = !st.returned[cur];
+        // The most recent broadcasts are enough: older frames on the same
+        // stack lie in the same place.
+        for j in (0..st.returned.len()).rev().take(4) {
+            let Some((lo, hi)) = st.region[j] else { continue };
+            if !st.returned[j] || addr < lo || addr >= hi {
+                continue;
             }
-        ))
+            if tid == st.owner[j] {
+                continue; // its own stack
+            }
+            if st.alive_at_return[j] & (1u32 << (tid as u32 & 31)) == 0 {
+                continue; // a thread created later: the memory may be its own
+            }
+            if open {
+                if let Some((clo, chi)) = st.region[cur] {
+                    if addr >= clo && addr < chi {
+                        continue; // may belong to the broadcast in progress
+                    }
+                }
+            }
+            return Some(format!(
+                "[touch_after_release] broadcast {j}: thread {tid} is about to operate on memory in the stack frames of that broadcast's call although its caller (thread {}) is already back from it — a stale pointer into the dead frame",
+                st.owner[j]
+            ));
+        }
+        None
     }
 }
 
@@ -241,6 +259,13 @@ fn one_broadcast(
         value_of(j, i)
     };
     probe::event(UserEv::BroadcastBegin { j: j as u32, n: n as u32 });
+    // Tell the frame-liveness monitor where this call's frames will lie.
+    let frame_marker = 0u8;
+    if let Some(u) = dsim::sim::user() {
+        if let Some(m) = u.downcast_ref::<FrameLiveness>() {
+            m.set_frame(j as u32, std::hint::black_box(&frame_marker) as *const u8 as usize);
+        }
+    }
     let unwound;
     let results: Vec<Option<u64>> = match b.api {
         Api::Broadcast => {
@@ -444,9 +469,15 @@ impl PoolScn {
                 ..FaultPlan::default()
             },
             name: "pool",
-            monitor: Some(Arc::new(FrameLiveness::default())),
-            ..RunConfig::default()
+            ..Self::with_monitor()
         }
+    }
+
+    /// The monitor is also the run's user context, so that the harness can
+    /// tell it where each call's frames lie.
+    fn with_monitor() -> RunConfig {
+        let m = Arc::new(FrameLiveness::default());
+        RunConfig { monitor: Some(m.clone()), user: Some(m), ..RunConfig::default() }
     }
 
     pub fn execute(&self, cfg: RunConfig) -> (RunResult, PoolOutcome) {
@@ -729,62 +760,9 @@ pub fn check_c06(scn: &PoolScn, r: &RunResult, out: &PoolOutcome) -> Vec<Violati
             v.push(Violation::new("history", format!("no results recorded for broadcast {j}")));
         }
 
-        // (6) frame liveness: once the countdown reached zero, no worker
-        // touches the broadcast's shared state any more (until it receives
-        // its next task).
-        if b.n > 0 {
-            let zero = ev.iter().find(|e| {
-                e.seq > w.begin
-                    && e.seq < ret
-                    && matches!(e.kind, Ev::Atomic { op: AtomOp::Rmw, new: 0, .. })
-                    && e.tid != w.caller
-            });
-            if let Some(z) = zero {
-                let (zobj, zaddr) = match z.kind {
-                    Ev::Atomic { obj, addr, .. } => (obj, addr),
-                    _ => unreachable!(),
-                };
-                // Per worker: events after the zero event and before its
-                // next receive.
-                let mut closed = [false; dsim::MAX_THREADS];
-                for e in ev.iter().filter(|e| e.seq > z.seq) {
-                    let t = e.tid as usize;
-                    if e.tid == w.caller || closed[t] {
-                        continue;
-                    }
-                    // Only threads that served this broadcast are of interest.
-                    if !begins.iter().flatten().any(|b| b.tid == e.tid) {
-                        continue;
-                    }
-                    match e.kind {
-                        Ev::Recv { .. } | Ev::RecvErr { .. } | Ev::Exit => closed[t] = true,
-                        Ev::Atomic { obj, addr, .. } => {
-                            if obj == zobj || addr.abs_diff(zaddr) <= 256 {
-                                v.push(Violation::new(
-                                    "touch_after_release",
-                                    format!(
-                                        "broadcast {j}: worker thread {t} operated on the countdown/shared state (seq {}) after it had reached zero (seq {})",
-                                        e.seq, z.seq
-                                    ),
-                                ));
-                            }
-                        }
-                        Ev::HandleClone { addr, .. } => {
-                            if addr.abs_diff(zaddr) <= 256 {
-                                v.push(Violation::new(
-                                    "touch_after_release",
-                                    format!(
-                                        "broadcast {j}: worker thread {t} cloned the caller's handle out of the shared state (seq {}) after the countdown had reached zero (seq {})",
-                                        e.seq, z.seq
-                                    ),
-                                ));
-                            }
-                        }
-                        _ => {}
-                    }
-                }
-            }
-        }
+        // (6) frame liveness is judged while the run proceeds (the
+        // `FrameLiveness` monitor), in terms of the caller's return and its
+        // stack, not of a particular countdown.
 
         // (7) spawn conservation and reuse.
         // Worker spawns are the spawns performed inside a broadcast by its
